@@ -196,3 +196,21 @@ SPECS['C02'] = dict(
     quick=dict(workers=16, cases=400, size=100, timeout=1500),
     thorough=dict(workers=16, cases=20000, size=100, timeout=7200),
 )
+
+SPECS['C03'] = dict(
+    kind='native', drivers=['p_c03.cpp'], shims=['sut_strm'], with_lib=True,
+    level='exploration',
+    technique='model-based testing of the stream multiplexer: generated constituent streams and peek/pop operation sequences against a sorted-multiset model (rapidcheck)',
+    level_text=('1..40 generated constituents (RDATE lists, finite and infinite RRULEs, several RRULEs per event, same and different UIDs with coinciding instants, '
+                'streams that end at once) are muxed through echs_evstrm_vmux / the variadic echs_evstrm_mux / vmux_clon and driven by generated peek/pop sequences; '
+                'peeks must not consume, pops must be chronological, every model occurrence must be delivered exactly once with identical (start, UID) collapsed, and '
+                'end-of-stream must come only after all constituents ended and stay.'),
+    level_note='the model is built from clones of the same constituents popped separately (C01/C02 judge those); ties between different UIDs may come in any order',
+    rule=('case = (calendar text with n events, operation string over {peek, pop} of length <= 126 (quick) / 606 (thorough), mux flavour); constituents share a few start phases so that '
+          'instants coincide; constituents are listed up to 400 occurrences, unfinished ones bound the judged horizon. non-trivial = >=2 constituents, >=1 tie (same instant from two '
+          'sources) and >=1 peek after the first pop; distinct = case text'),
+    assumptions=['order among different UIDs at the same instant is not asserted',
+                 'a duplicate instant inside one RDATE list is one occurrence (RFC 5545 set semantics)'],
+    quick=dict(workers=16, cases=2000, size=100, timeout=1500, opts={'maxops': 120}),
+    thorough=dict(workers=16, cases=20000, size=100, timeout=7200, opts={'maxops': 600}),
+)
